@@ -225,6 +225,18 @@ def check_relabel(rng, acc):
                 extra += 1
     times = {n: t for n, t in forest.times.items() if n in seg_ids}
     edges = [(u, v) for u, v in forest.edges if u in times and v in times]
+    if rng.random() < 0.15:
+        # the function takes any directed graph: a node may have three (or more) children
+        roots = [v for v in times if all(e[1] != v for e in edges)]
+        rng.shuffle(roots)
+        for v in roots:
+            ps = [u for u in times if times[u] < times[v]
+                  and sum(1 for e in edges if e[0] == u) == 2]
+            if ps:
+                edges.append((rng.choice(ps), v))
+                acc["counters"]["relabel-three-way-division"] = \
+                    acc["counters"].get("relabel-three-way-division", 0) + 1
+                break
     import networkx as nx
 
     g = nx.DiGraph()
